@@ -167,14 +167,33 @@ impl HttpRequest for SimHttp {
                     session: session.clone(),
                     request_id,
                 });
-                let delivered = omaha::answer(&mut g, &uri, &body, &json, kind, &session);
+                let mock = g.mock.clone();
+                let delivered = if mock.is_some() { Delivered::Transport } else { omaha::answer(&mut g, &uri, &body, &json, kind, &session) };
                 let gid = g.new_gate(GateKind::Http(idx));
-                Some((idx, GateFut { w: w.clone(), id: gid, done: false }, delivered))
+                Some((idx, GateFut { w: w.clone(), id: gid, done: false }, delivered, mock))
             })();
-            let (idx, gate, delivered) = match prepared {
+            let (idx, gate, mut delivered, mock) = match prepared {
                 Some(x) => x,
                 None => return future::pending().await,
             };
+            if let Some(server) = mock {
+                // origin-form request to the in-process mock server
+                let pq = parts.uri.path_and_query().map(|p| p.as_str().to_string()).unwrap_or_else(|| "/".into());
+                let mut b = hyper::Request::builder().method(parts.method.clone()).uri(pq);
+                for (k, v) in parts.headers.iter() {
+                    b = b.header(k, v);
+                }
+                let req = b.body(hyper::Body::from(body.clone())).expect("mock request");
+                delivered = match mock_omaha_server::handle_request(req, &server).await {
+                    Ok(resp) => {
+                        let (rp, rb) = resp.into_parts();
+                        let rbody = hyper::body::to_bytes(rb).await.map(|b| b.to_vec()).unwrap_or_default();
+                        let headers = rp.headers.iter().map(|(k, v)| (k.as_str().to_string(), v.as_bytes().to_vec())).collect();
+                        Delivered::Reply { status: rp.status.as_u16(), headers, body: rbody, authentic: true, etag_kind: "mock".into(), doc: None }
+                    }
+                    Err(_) => Delivered::Transport,
+                };
+            }
             gate.await;
             lock(&w).push(Ev::HttpResp { idx, delivered: delivered.clone() });
             match delivered {
